@@ -39,6 +39,17 @@ STRENGTHENED = {
     "C09_m2": "first missed by C09/C07 quick (fruit lands under the head in ~0.5% of fruit events on 12x12): added the 3x4 Snake configuration with many fruit events",
     "C10_m2": "first missed by C10 (all shipped Sudoku databases are int8): added user databases in uint8 / int64",
     "C11_m1": "first missed by C11 quick (no non-square Cleaner/Maze configuration with the default time limit on the quick tier): added r4c7 / r7c4 configurations",
+    "C01_r2m2": "first missed by C01 quick (the halved MultiCVRP local_times bound is only exceeded on instances whose depot lies far from the customers, ~1-5% of keys): C01 now searches 64 reset keys with the model's key_score and plays the shuttle (greedy/lazy) workloads on the highest-scoring ones; thorough already caught it",
+    "C02_r2m2": "first missed by C02 (no configuration used non-default reward coefficients and no other instance of the class was built in between): added a Connector configuration with custom coefficients and 'sibling instances' (default / other configurations of the same class) constructed and stepped right before every new trace",
+    "C03_r2m2": "first missed by C03 (a cube must become solved on the very step that reaches the limit): added RubiksCube configurations whose scramble length equals the time limit (n2s1L1, n3s2L2), solved by the model's complete policy",
+    "C07_r2m2": "first missed by C07 quick (the quick Tetris boards were taller than wide, where the wrong axis only makes pieces float; caught by C09): added a wide board (5x8)",
+    "C11_r2m1": "first missed by C11 (no 3-vehicle MultiCVRP configuration and no workload that never finishes the tour): added c6v3 and the 'lazy' all-depot policy",
+    "C15_r2m1": "first missed by C15 (random/masked play through the adapters never completes a Minesweeper game; C01 caught the spec bound): the adapters are now also driven by the models' complete/frontier workloads",
+    "C15_r2m2": "first missed by C15 (the short-limit PacMan configuration never reaches rows 28-29; C01 caught it): C15 quick also runs the default maze with the frontier workload",
+    "C16_r2m2": "first missed by C16 (specs with different child sets were treated as outside the statement): added the clause 'a nested spec must not compare equal to itself plus one more child' (raising is tolerated, True is not)",
+    "C18_r2m1": "first missed by C18 (duplicate registrations were only tried under the canonical spelling): duplicates are now also registered with leading zeros in the version",
+    "C18_r2m2": "first missed by C18 (Sudoku-v0 and Sudoku-very-easy-v0 were made in different worker processes): added a shard that makes every shipped id in one process in reverse registry order and re-checks the documented configuration (incl. 'mixed database has boards with < 46 clues')",
+    "C13_r2m2": "a change to VmapAutoResetWrapper (jnp.all instead of jnp.any): not visible to C13 (AutoResetWrapper itself is untouched) and caught by C14; kept as a duplicate witness of C14_m1's mechanism",
     "C19_m2": "caught by the symmetric-comparison clause; the variant 'other dtype and a value the cast would destroy' was added to make the hit direct",
 }
 rows = []
